@@ -69,6 +69,7 @@ package kvql
 //@   ghost r Int, k Int
 //@   requires wfProj(p) && len(chunk) > 0
 //@   requires finalcols: ctx != nil && ctx.EnableCache ==> (forall q B :: has(ctx.FieldChunkCaches, q) ==> len(ctx.FieldChunkCaches[q]) >= len(chunk))
+//@   requires[C05] coh: cohChunk(ctx, chunk) && wfCtxB(ctx) && wfRefs()
 //@   assigns ctx.Hit, mapof(ctx.FieldCaches), mapof(ctx.FieldChunkKeyCaches), mapof(ctx.FieldChunkCaches)
 //@   ensures[C05, C03] width: err == nil ==> len(ret) == len(chunk) && fresh(ret) && (0 <= r && r < len(chunk) ==> len(ret[r]) == len(p.Fields))
 //@   ensures[C13] quiet: nops == old(nops) && failed == old(failed)
@@ -76,6 +77,7 @@ package kvql
 //@     invariant 0 <= i && i <= nFields && nFields == len(p.Fields) && len(cols) == nFields && fresh(cols) && len(ret) == len(chunk) && fresh(ret) && ptr(ret) != ptr(cols) && err == nil
 //@     invariant forall q Int :: 0 <= q && q < i ==> len(cols[q]) >= len(chunk)
 //@     invariant finalcols: ctx != nil && ctx.EnableCache ==> (forall q B :: has(ctx.FieldChunkCaches, q) ==> len(ctx.FieldChunkCaches[q]) >= len(chunk))
+//@     invariant[C05] coh: cohChunk(ctx, chunk)
 //@   loop 1
 //@     invariant 0 <= local(i#2) && local(i#2) <= len(chunk) && nFields == len(p.Fields) && len(cols) == nFields && fresh(cols) && len(ret) == len(chunk) && fresh(ret) && ptr(ret) != ptr(cols)
 //@     invariant forall q Int :: 0 <= q && q < nFields ==> len(cols[q]) >= len(chunk)
@@ -89,6 +91,7 @@ package kvql
 //@   props C05 C03 C13
 //@   ghost r Int
 //@   requires wfProj(p) && ctx != nil && !failed && wfCursor(p.ChildPlan)
+//@   requires[C05] c5: wfCtxB(ctx) && wfRefs()
 //@   assigns pcur(p.ChildPlan), nops, failed, lastErr, ctx.Hit, mapof(ctx.FieldCaches), mapof(ctx.FieldChunkKeyCaches), mapof(ctx.FieldChunkCaches)
 //@   ensures[C05, C03] rows: err == nil ==> len(ret) == pcur(p.ChildPlan) - old(pcur(p.ChildPlan)) && ((len(ret) == 0) == (old(pcur(p.ChildPlan)) >= plen(p.ChildPlan)))
 //@   ensures[C05, C03] width: err == nil && 0 <= r && r < len(ret) ==> len(ret[r]) == ite(p.AllFields, 2, len(p.Fields))
